@@ -350,3 +350,42 @@ def blade_parity(ctx):
         else:
             ctx.violation(c, f"blades[{sp!r}] gives {out[1]}, expected {want} (negated iff the spelling is an odd permutation "
                              f"of the canonical blade)", fn2)
+
+
+@rule("C01.pss-frame", props=["C01", "C05"], min_instances=3, mutants=[
+    ("pseudoscalar is the last blade of the canonical list minus one", ("algebra", "        self.pss = self.blades[self.bin2canon[2 ** self.d - 1]]", "        self.pss = self.blades[self.bin2canon[2 ** self.d - 2]]")),
+    ("frame uses consecutive keys", ("algebra", "        return [self.blades[self.bin2canon[2**j]] for j in range(0, self.d)]", "        return [self.blades[self.bin2canon[j + 1]] for j in range(0, self.d)]")),
+])
+def pss_frame(ctx):
+    """Algebra.pss is the unit blade that contains every generator (canonical spelling, coefficient +1) and
+    Algebra.frame lists the d generators; these are what polarity and the reciprocal frame multiply with."""
+    repo = ctx.repo
+    fn = ctx.func("algebra.Algebra.__post_init__")
+    basis, pqr = read_named_basis(repo, "3DPGA")
+    for label, kwargs in (("default d=3", dict(p=2, q=1)), ("default PGA d=3", dict(p=2, r=1)),
+                          ("named basis 3DPGA", dict(p=pqr[0], q=pqr[1], r=pqr[2], basis=basis))):
+        c = f"algebra.Algebra.pss#{label}"
+        try:
+            it, alg = build_algebra(repo, **kwargs)
+            frame = it._instance_attr(alg, "frame")
+        except NoValue as exc:
+            raise Unknown(c, str(exc), fn)
+        except Raised as r:
+            ctx.violation(c, f"raises {r.name}", fn)
+            continue
+        d = alg.attrs["d"]
+        pss = alg.attrs.get("pss")
+        problems = []
+        if not (isinstance(pss, Obj) and tuple(pss.attrs.get("_keys", ())) == (2 ** d - 1,) and list(pss.attrs.get("_values", [])) == [1]):
+            problems.append(f"pss stores keys {getattr(pss, 'attrs', {}).get('_keys')} / values {getattr(pss, 'attrs', {}).get('_values')}, "
+                            f"expected the single key {2 ** d - 1} with coefficient 1")
+        try:
+            fk = [(tuple(v.attrs["_keys"]), list(v.attrs["_values"])) for v in frame]
+        except Exception:
+            fk = None
+        if fk != [((2 ** j,), [1]) for j in range(d)]:
+            problems.append(f"frame is {fk}, expected the generators with keys {[2 ** j for j in range(d)]}")
+        if problems:
+            ctx.violation(c, "; ".join(problems), fn)
+        else:
+            ctx.ok(c, fn)
